@@ -295,41 +295,34 @@ func judgeWire(t *testing.T, name, class string, hostile []wireFrame, refusedCla
 	}
 }
 
-// Frames the interleaved reader refuses: the session must survive them.
-func TestWireRefusedFrames(t *testing.T) {
+type wireCase struct {
+	class string
+	fr    []wireFrame
+}
+
+// refusedWireCases: frames the interleaved reader refuses.
+func refusedWireCases() []wireCase {
 	valid := rtppack.Pkt{PT: 96, Marker: true, Seq: 1, TS: 90000, SSRC: 5, Payload: []byte{0x41, 0x9a, 0x00}}.Marshal()
-	for _, w := range []struct {
-		class string
-		fr    []wireFrame
-	}{
+	return []wireCase{
 		{"unknown channel 9", []wireFrame{wf(9, valid, "valid RTP packet on channel 9")}},
 		{"unknown channel 255, empty", []wireFrame{wf(255, nil, "empty frame on channel 255")}},
 		{"unknown channel 4 (first beyond the set-up ones)", []wireFrame{wf(4, []byte{0x80, 0xc8, 0, 6}, "rtcp on channel 4")}},
 		{"video frame with 0-byte RTP packet", []wireFrame{wf(0, nil, "empty")}},
+		{"audio frame with 0-byte RTP packet", []wireFrame{wf(2, nil, "empty")}},
 		{"video frame with 3-byte RTP header", []wireFrame{wf(0, valid[:3], "3 bytes")}},
 		{"video frame with 11-byte RTP header", []wireFrame{wf(0, valid[:11], "11 bytes")}},
 		{"audio frame with 5-byte RTP header", []wireFrame{wf(2, valid[:5], "5 bytes")}},
 		{"video frame whose CSRC count exceeds the packet", []wireFrame{wf(0, append([]byte{0x8f}, valid[1:]...), "CC=15")}},
 		{"video frame whose header extension exceeds the packet", []wireFrame{wf(0, append(append([]byte{0x90}, valid[1:12]...), 0xbe, 0xde, 0xff, 0xff), "X=1, length 65535 words")}},
-	} {
-		judgeWire(t, "wire-refused", w.class, w.fr, true)
 	}
 }
 
-// Frames that reach the stream: the same hostile constants as in the structured
-// check, a few per class, through the real session.
-func TestWireHostileFrames(t *testing.T) {
+// hostileWireCases: frames that reach the stream — the same hostile constants as
+// in the structured check, a few per class.
+func hostileWireCases() []wireCase {
 	mp := func(pt byte, ts uint32, pl []byte) []byte { return mediaPacket(pt, true, 7, ts, pl) }
-	var cases []struct {
-		class string
-		fr    []wireFrame
-	}
-	add := func(class string, fr ...wireFrame) {
-		cases = append(cases, struct {
-			class string
-			fr    []wireFrame
-		}{class, fr})
-	}
+	var cases []wireCase
+	add := func(class string, fr ...wireFrame) { cases = append(cases, wireCase{class, fr}) }
 	vts, ats := uint32(90000+probeStep), uint32((90000+probeStep)*441/900)
 	for _, h := range hostileH264 {
 		switch h.Name {
@@ -351,7 +344,19 @@ func TestWireHostileFrames(t *testing.T) {
 	add("burst: every class in a row",
 		wf(0, mp(96, vts, hx(0x78, 0x00, 0x01)), "stapa"), wf(2, mp(97, ats, hx()), "aac empty"),
 		wf(1, hx(0x80, 0xc8, 0x00, 0x00), "rtcp 4 bytes"), wf(3, hx(), "rtcp empty"), wf(0, mp(96, vts, hx(0x7c)), "fu-a 1 byte"))
-	for _, c := range cases {
+	return cases
+}
+
+// Frames the interleaved reader refuses: the session must survive them.
+func TestWireRefusedFrames(t *testing.T) {
+	for _, w := range refusedWireCases() {
+		judgeWire(t, "wire-refused", w.class, w.fr, true)
+	}
+}
+
+// Frames that reach the stream, through the real session.
+func TestWireHostileFrames(t *testing.T) {
+	for _, c := range hostileWireCases() {
 		judgeWire(t, "wire-hostile", c.class, c.fr, false)
 	}
 }
